@@ -57,6 +57,7 @@ Record sys_case := mkCase {
   sc_delta : Q; sc_horizon : Q;
   sc_events : list (Q * qitem);
   sc_look_to_time : option Q;
+  sc_origin : Q;
   sc_fuel : nat;
   sc_tol : Q;                        (* tolerance on times *)
   sc_min_margin : Q;                 (* cases whose smallest margin is below this are skipped *)
@@ -69,7 +70,7 @@ Definition config_of (c : sys_case) (g : gen) : config :=
   {| c_gen := g; c_udi := sc_udi c; c_stop_at_rounds := sc_stop_at_rounds c;
      c_call_comps := sc_call_comps c; c_name := sc_name c; c_instance := sc_instance c;
      c_rhythm := sc_rhythm c; c_delta := sc_delta c; c_horizon := sc_horizon c;
-     c_events := sc_events c; c_look_to_time := sc_look_to_time c |}.
+     c_events := sc_events c; c_look_to_time := sc_look_to_time c; c_origin := sc_origin c |}.
 
 Definition model_trace (c : sys_case) (w : world) : list (Q * out) :=
   filter (fun x => Qle_bool (fst x) (sc_horizon c)) (rev (w_out w)).
